@@ -30,6 +30,15 @@ def templates(tier="quick"):
             ninja_op(j=2, faults={"b": {"code": 1}}),
             _tool("restat"), _tool("restat", ["b"]), _tool("restat", ["a", "c"]), _tool("recompact"),
             tool_op("cleandead"), tool_op("query", ["-t", "query", "c"]), tool_op("deps", ["-t", "deps"])]
+    # the log-maintaining invocations under faults: killed at, and an I/O error at, every file operation
+    fops = []
+    for t in (_tool("recompact"), _tool("restat"), dict(ninja_op(j=2, subsets=False))):
+        f = dict(t)
+        f["crash"] = True
+        f["label"] = t["label"] + " [a fault at every file operation]"
+        f["no_expand"] = True
+        fops.append(f)
+    ops += fops
     T.append(scenario("c08/log_tools/built", "c08", [v0, v1], ops=ops, init=[build], depth=d, tags=["buildlog", "tools"]))
     # a long history already in place
     dup = next(i for i, o in enumerate(ops) if o["op"] == "duplog")
